@@ -58,6 +58,13 @@ func H_l2_nowrite() {
 			c.st = st
 			c.optc = 0
 		}
+	case 3: // loaded from a 0.5.10 stream (writer model G.2; carries a reserved field as unknown bytes)
+		st, err := vLegacyLoad0510(c, "0.5.10")
+		vAssert(err == nil, "C06.load-ok")
+		if err != nil {
+			vAssume(false)
+		}
+		c.st = st
 	}
 	q := vString("q", vParam("lq"))
 	api := vParam("api")
